@@ -389,8 +389,110 @@ func (p *Program) Field(rel, typ, field string) *types.Var {
 		return nil
 	}
 	obj, _, _ := types.LookupFieldOrMethod(n, true, p.ByRel[rel].Types, field)
-	v, _ := obj.(*types.Var)
-	return v
+	if v, ok := obj.(*types.Var); ok {
+		return v
+	}
+	return p.fieldByRole(n, typ, field)
+}
+
+// fieldRoles: private state fields that the rules refer to. When the field has been renamed,
+// it is recognised by its type, which must then identify it uniquely within its struct
+// (a rename is not an alarm; an ambiguous or missing field stays "not found").
+var fieldRoles = map[string]string{
+	"programState.Senders":             "[]Sender",
+	"programState.Receivers":           "[]Receiver",
+	"programState.CachedBalances":      "Balances",
+	"programState.CurrentAsset":        "string",
+	"programState.CurrentBalanceQuery": "BalanceQuery",
+	"programState.CachedAccountsMeta":  "AccountsMetadata#cache",
+	"programState.SetAccountsMeta":     "AccountsMetadata#result",
+	"programState.TxMeta":              "map[string]Value#result",
+	"CheckResult.unboundedSend":        "bool",
+	"CheckResult.declaredVars":         "map[string]parser.VarDeclaration",
+	"CheckResult.unusedVars":           "map[string]parser.Range",
+	"CheckResult.varResolution":        "map[*parser.Variable]parser.VarDeclaration",
+	"CheckResult.emptiedAccount":       "map[string]struct{}",
+	"State.documents":                  "map[DocumentURI]InMemoryDocument",
+	"argsParser.parsedArgsCount":       "int",
+}
+
+func (p *Program) fieldByRole(n *types.Named, typ, field string) *types.Var {
+	want, ok := fieldRoles[typ+"."+field]
+	if !ok {
+		return nil
+	}
+	st, ok := n.Underlying().(*types.Struct)
+	if !ok {
+		return nil
+	}
+	role := ""
+	if i := strings.Index(want, "#"); i >= 0 {
+		want, role = want[:i], want[i+1:]
+	}
+	q := func(pk *types.Package) string {
+		if pk == n.Obj().Pkg() {
+			return ""
+		}
+		return pk.Name()
+	}
+	var cands []*types.Var
+	for i := 0; i < st.NumFields(); i++ {
+		if types.TypeString(st.Field(i).Type(), q) == want {
+			cands = append(cands, st.Field(i))
+		}
+	}
+	if role != "" {
+		// several fields of that type: the one whose value is (not) handed to the execution result
+		var inResult, others []*types.Var
+		for _, f := range cands {
+			if p.copiedIntoResult(f) {
+				inResult = append(inResult, f)
+			} else {
+				others = append(others, f)
+			}
+		}
+		if role == "result" {
+			cands = inResult
+		} else {
+			cands = others
+		}
+	}
+	if len(cands) == 1 {
+		return cands[0]
+	}
+	return nil
+}
+
+// copiedIntoResult: a load of the field is stored into a field of ExecutionResult.
+func (p *Program) copiedIntoResult(f *types.Var) bool {
+	for _, fn := range p.ModuleFunctions() {
+		for _, b := range fn.Blocks {
+			for _, in := range b.Instrs {
+				st, ok := in.(*ssa.Store)
+				if !ok {
+					continue
+				}
+				fa, ok := st.Addr.(*ssa.FieldAddr)
+				if !ok {
+					continue
+				}
+				pt, ok := fa.X.Type().Underlying().(*types.Pointer)
+				if !ok {
+					continue
+				}
+				nt, ok := types.Unalias(pt.Elem()).(*types.Named)
+				if !ok || nt.Obj().Name() != "ExecutionResult" {
+					continue
+				}
+				if ld, ok := st.Val.(*ssa.UnOp); ok {
+					if fa2, ok := ld.X.(*ssa.FieldAddr); ok && FieldOf(fa2) == f {
+						return true
+					}
+				}
+			}
+		}
+	}
+	return false
 }
 
 // Info returns the types.Info of the package containing the file position.
